@@ -44,6 +44,21 @@ Definition run_clip (data : list N) : list Z :=
   | o => [status o]
   end.
 
+(* c10clipsweep: all 2^16 character values in a 1x1 clipboard layer:
+   [accepted; rejected; first rejected; last rejected; accepted whose stored char is not the value] *)
+Definition clip_one (v : N) : outcome clip_result :=
+  clipboard conv_clipboard ([0;0;0;0;0;0;0;0;0;1;0;0;0;1;0;0;0] ++ [v mod 256; v / 256; 0;0;0;0;0;0;0;0;7;0;0;0])%N.
+Definition run_clip_sweep : list Z :=
+  let rs := map (fun v => (v, clip_one v)) (nrange 65536) in
+  let rej := filter (fun p => match snd p with Rejected => true | _ => false end) rs in
+  let acc := filter (fun p => match snd p with Done _ => true | _ => false end) rs in
+  [Z.of_nat (length acc); Z.of_nat (length rej);
+   match rej with p :: _ => Z.of_N (fst p) | [] => -1 end;
+   match rev rej with p :: _ => Z.of_N (fst p) | [] => -1 end;
+   Z.of_nat (length (filter (fun p => match snd p with
+                                      | Done r => match c_cells r with [(0, 0, c)] => negb (c =? fst p)%N | _ => true end
+                                      | _ => false end) acc))].
+
 (* c10icy, one LAYER_n payload: [status; title length; title bytes; image; w; h; line count; events] *)
 Definition run_icy_layer (bytes : list N) : list Z :=
   match icy_layer str_icy conv_icy_first bytes with
